@@ -10,10 +10,13 @@
          handed to the synthesiser is the cone function on the care rows;
      (2) the trivial-replacement statement (equal patterns = equal functions, complementary
          patterns = negated function: what defect D15b violated);
-     (3) a verified validator for one replacement step: check_step (cones agree on the
-         compared leaf vectors) and check_subst (plus frame conditions) with the care-set
-         substitution theorem: an accepted step preserves the value of every surviving gate,
-         in particular of every circuit output.
+     (3) the care-set substitution theorem for the function replace_subcircuit
+         (C04_care_set_substitution: if the cone check accepts host cone vs. replacement on the
+         care set and the care set covers the reachable leaf vectors, every surviving gate keeps
+         its value under every Boolean input vector), and a verified validator for one
+         replacement step on recorded states: check_step (cones agree on the compared leaf
+         vectors) and check_subst (plus frame conditions): an accepted step preserves the value
+         of every surviving gate, in particular of every circuit output.
    Every call of Circuit.replace_subcircuit made by minimize_subcircuits during the check is
    replayed through the model and validated with check_subst (harness/patcorr.py).
 
@@ -29,12 +32,14 @@
                             (a new gate can get the label, type and operands of a removed one) *)
 Require Import Cirbo.Model.Base Cirbo.Model.Gate Cirbo.Model.Den Cirbo.Model.Circuit
         Cirbo.Model.Eval Cirbo.Model.Sem Cirbo.Model.ConeSem Cirbo.Model.PatternSim
-        Cirbo.Model.SubcircuitValidator.
+        Cirbo.Model.SubcircuitValidator Cirbo.Model.Connect Cirbo.Model.WF.
 Require Import Cirbo.Generated.GateTypes Cirbo.Generated.PatternOps.
 Require Import Cirbo.Proofs.EvalFacts Cirbo.Proofs.PatternBits Cirbo.Proofs.PatternFacts
         Cirbo.Proofs.InputsTT Cirbo.Proofs.ConeSim Cirbo.Proofs.ConeFacts
         Cirbo.Proofs.ValidatorFacts Cirbo.Proofs.MergeFacts Cirbo.Proofs.CareFacts Cirbo.Proofs.SolverTable
         Cirbo.Proofs.C04Examples.
+Require Import Cirbo.Proofs.WFEmplace Cirbo.Proofs.WFStep Cirbo.Proofs.EvalEntry Cirbo.Proofs.TruthTable
+        Cirbo.Proofs.SemReplaceSub Cirbo.Proofs.C04Replace.
 
 (* ---- (1) pattern operations, every width ---- *)
 Theorem C04_max_pattern : forall n, max_pattern n = (2 ^ (2 ^ n) - 1)%N.
@@ -167,23 +172,102 @@ Theorem C04_check_step_map_sound_Eval : forall old new leaves outs care a a' v,
     exists b, Eval old a o (inj b) /\ Eval new a' o' (inj b).
 Proof. exact check_step_map_sound_Eval. Qed.
 
-(* FULL STATEMENT (DESIGN 7/C04 (ii), not proved in this form): let c be well formed, L the
-   leaves of a cone, K the leaf-value vectors that occur under some primary-input assignment,
-   sub a circuit over L whose outputs agree with the cone's outputs on every vector of some
-   K' containing K, and replace_subcircuit c sub imap omap fresh = Ok c'.  Then Eval of every
-   surviving gate is the same in c' as in c, provided no leaf depends on a replaced output.
-   PROVED (validator form): the same conclusion for any two states old / new that the
-   executable check_subst accepts - the cone agreement and the frame conditions (new is
-   acyclic: a checked operands-first order; the leaves survive and are not cone outputs; no
-   gate outside the replaced internal gates, other than a cone output, reads one of them; same interface;
-   only cone gates touched) are checked on the two states instead of being derived from the
-   definition of replace_subcircuit; the proviso "no leaf depends on a replaced output" is
-   not needed in this form (acyclicity of the result is checked instead); the harness checks for every recorded step that
-   the model's replace_subcircuit yields exactly the state `new`.
+(* The care-set substitution theorem (DESIGN 7/C04 (ii)) as a theorem about the FUNCTION
+   Connect.replace_subcircuit.  Let c be well formed with accepted arities, sub well formed,
+   replace_subcircuit c sub imap omap fresh = Ok c'.  The cut is the list of keys of imap, the
+   replaced cone outputs the keys of omap; imap / omap pair each of them with its label in sub.
+   If the executable cone check accepts host cone vs. replacement on every compared leaf vector
+   (check_step_map c sub imap omap care: all 2^k vectors, or the care set) and the care set
+   contains every leaf vector that occurs under some Boolean primary-input vector
+   (care_covers, C04_care_covers_sound), then under EVERY Boolean primary-input vector x every
+   surviving gate g of the host has in c' the value it had in c (modulo the renaming rho of the
+   mapped gates to their mapped labels, C19_replace_subcircuit_renaming; a' is any assignment
+   of c' that gives the renamed inputs the values of x).  g survives iff its renamed label is
+   still a gate and is not an internal gate of the replacement.  The proviso "no leaf depends
+   on a replaced output" of the design is not needed: the statement holds whenever
+   replace_subcircuit returns normally (as C19_replace_subcircuit_semantics does).
+   Proof: acceptance by the check implies, per host assignment, the equivalence hypothesis of
+   C19_replace_subcircuit_semantics (Proofs/C04Replace.v). *)
+Theorem C04_care_set_substitution : forall c sub imap omap fresh c' care,
+  Inv c -> Inv sub -> arity_ok c ->
+  replace_subcircuit c sub imap omap fresh = Ok c' ->
+  check_step_map c sub imap omap care = true ->
+  match care with Some K => care_covers c (dkeys imap) K = true | None => True end ->
+  forall x a', length x = length (inputs c) ->
+  (forall l, In l (inputs c) -> aval a' (ren_all (imap ++ omap) l) = aval (bool_assignment c x) l) ->
+  forall g v, has_gate c g = true -> has_gate c' (ren_all (imap ++ omap) g) = true ->
+    has_gate sub (ren_all (imap ++ omap) g) = false \/
+    In (ren_all (imap ++ omap) g) (dvals imap ++ dvals omap) ->
+    (Eval c' a' (ren_all (imap ++ omap) g) v <-> Eval c (bool_assignment c x) g v).
+Proof. exact care_set_replace_subcircuit. Qed.
+
+(* in particular the circuit outputs are the renamed old ones and carry the same values *)
+Theorem C04_care_set_substitution_outputs : forall c sub imap omap fresh c' care,
+  Inv c -> Inv sub -> arity_ok c ->
+  replace_subcircuit c sub imap omap fresh = Ok c' ->
+  check_step_map c sub imap omap care = true ->
+  match care with Some K => care_covers c (dkeys imap) K = true | None => True end ->
+  forall x a', length x = length (inputs c) ->
+  (forall l, In l (inputs c) -> aval a' (ren_all (imap ++ omap) l) = aval (bool_assignment c x) l) ->
+  outputs c' = map (ren_all (imap ++ omap)) (outputs c) /\
+  forall vs, Forall2 (Eval c' a') (outputs c') vs <->
+             Forall2 (Eval c (bool_assignment c x)) (outputs c) vs.
+Proof. exact care_set_replace_subcircuit_outputs. Qed.
+
+(* at the entry points: when also the replacement has accepted arities and no primary input is
+   removed (an input that is itself a replaced cone output would be), evaluate returns the same
+   result on every Boolean input vector and the truth table is the same, as results *)
+Theorem C04_care_set_substitution_truth_table : forall c sub imap omap fresh c' care,
+  Inv c -> Inv sub -> arity_ok c -> arity_ok sub ->
+  replace_subcircuit c sub imap omap fresh = Ok c' ->
+  check_step_map c sub imap omap care = true ->
+  match care with Some K => care_covers c (dkeys imap) K = true | None => True end ->
+  inputs c' = map (ren_all (imap ++ omap)) (inputs c) ->
+  (forall x, length x = length (inputs c) -> evaluate c' (map inj x) = evaluate c (map inj x)) /\
+  get_truth_table c' = get_truth_table c.
+Proof. exact care_set_replace_subcircuit_entry. Qed.
+
+Example C04_example_care_set_replacement_truth_table :
+  arity_ok c04_dc_sub /\
+  exists c', replace_subcircuit c04_dc_old c04_dc_sub c04_dc_imap c04_dc_omap "f" = Ok c' /\
+    inputs c' = map (ren_all (c04_dc_imap ++ c04_dc_omap)) (inputs c04_dc_old) /\
+    get_truth_table c' = Ok [[T; T; T; T]] /\ get_truth_table c04_dc_old = Ok [[T; T; T; T]].
+Proof. exact c04_dc_replace_entry. Qed.
+
+(* the step of the theorem: what the check gives per Boolean input vector is exactly the
+   hypothesis of C19_replace_subcircuit_semantics *)
+Theorem C04_check_implies_equivalence : forall c sub imap omap fresh c' care,
+  Inv c -> arity_ok c ->
+  replace_subcircuit c sub imap omap fresh = Ok c' ->
+  check_step_map c sub imap omap care = true ->
+  match care with Some K => care_covers c (dkeys imap) K = true | None => True end ->
+  forall x, length x = length (inputs c) ->
+  forall b, (forall k, In k (dkeys imap) ->
+               Eval c (bool_assignment c x) k (aval b (ren_all (imap ++ omap) k))) ->
+    forall k v, In k (dkeys omap) -> Eval c (bool_assignment c x) k v ->
+                Eval sub b (ren_all (imap ++ omap) k) v.
+Proof. exact check_gives_equivalence. Qed.
+
+(* non-vacuity, with a replacement that is correct only on the care set *)
+Example C04_example_care_set_replacement :
+  Inv c04_dc_old /\ Inv c04_dc_sub /\ arity_ok c04_dc_old /\
+  (exists c', replace_subcircuit c04_dc_old c04_dc_sub c04_dc_imap c04_dc_omap "f" = Ok c' /\
+              gates c' = gates c04_dc_new) /\
+  check_step_map c04_dc_old c04_dc_sub c04_dc_imap c04_dc_omap (Some c04_dc_care) = true /\
+  check_step_map c04_dc_old c04_dc_sub c04_dc_imap c04_dc_omap None = false /\
+  care_covers c04_dc_old (dkeys c04_dc_imap) c04_dc_care = true.
+Proof. exact c04_dc_replace_ok. Qed.
+
+(* Validator form (what the harness evaluates on the recorded states before / after every
+   Circuit.replace_subcircuit call of minimize_subcircuits): the same conclusion for any two
+   states old / new that the executable check_subst accepts - the cone agreement and the frame
+   conditions (new is acyclic: a checked operands-first order; the leaves survive and are not
+   cone outputs; no gate outside the replaced internal gates, other than a cone output, reads
+   one of them; same interface; only cone gates touched) are checked on the two states.
    If check_subst accepts the step old -> new, then under every assignment for which the
    leaves carry a compared Boolean vector, every gate of old other than the replaced internal
    gates has in new the value it had in old. *)
-Theorem C04_care_set_substitution_partial : forall old new leaves outs care a,
+Theorem C04_validator_substitution : forall old new leaves outs care a,
   check_subst old new leaves outs care = true ->
   (exists v, compared (length leaves) care v /\
              Forall2 (fun l b => Eval old a l (inj b)) leaves v) ->
